@@ -40,6 +40,7 @@ def fixtures():
     import ECAgent.Environments as envs
     if _K is None:
         _K = [type(f'Q{i}', (core.Component,), {'__slots__': ()}) for i in range(3)]
+        _K[0] = type('Q0derived', (_K[1],), {'__slots__': ()})     # a user component class derived from another one (attached first)
         from vlib import contracts
         contracts.attach_environment(core)
         contracts.attach_spaceworld(envs)
@@ -109,6 +110,16 @@ def case_history(ctx, case):
                 pos.append(v)
             else:
                 pos.append(0)
+        return tuple(pos)
+
+    def junk_on_flat_axes(pos):
+        """Coordinates on zero-extent axes are not constrained by the property: the world may accept them or refuse them, but a refusal
+        must leave no trace."""
+        pos = list(pos)
+        flat = [k for k in range(3) if not (ext[k] and ext[k] > 0)]
+        for k in flat:
+            if rng.random() < 0.5:
+                pos[k] = rng.choice([-1, -3, 2, 7]) if grid else rng.choice([-1.5, -0.125, 2.0, 9.25])
         return tuple(pos)
 
     def compare():
@@ -200,7 +211,21 @@ def case_history(ctx, case):
             b = rng.choice(free)
             edge = rng.random() < 0.3
             pos = rnd_pos(edge)
-            env.add_agent(b, *pos)
+            if spatial and rng.random() < 0.25 and junk_on_flat_axes(pos) != pos:
+                jpos = junk_on_flat_axes(pos)
+                before = snap()
+                try:
+                    env.add_agent(b, *jpos)
+                    pos = jpos
+                    ctx.count('flat_axis_junk_accepted')
+                except Exception:  # noqa - a refusal is allowed, a trace is not
+                    ctx.count('flat_axis_junk_refused')
+                    after = snap()
+                    if before != after:
+                        raise CaseViolation(f'placement {jpos} was refused but changed {diff(before, after)}', world=(kind, ext), trace=trace[-8:])
+                    continue
+            else:
+                env.add_agent(b, *pos)
             if b.id in left and left[b.id] is not b:
                 flags.add('readd')
                 ctx.count('readd_colliding_id')
